@@ -76,8 +76,20 @@ def main(argv):
         scen.append({'id': s['id'], 'ptip': s['ptip'], 'steps': s['steps'] + [C, {'a': 'ProcRestart'}, C], 'faults': False, 'stride': 1})
     t = cs.TREES['Par7']
     clines, _ = pipeline.replay_parallel(chk, 'spynode', 'TestVerifCrashChainSync', {'par': t['par'], 'start': t['start'], 'batch': t['batch']}, scen, nproc=14, timeout=2400)
+    # the same tree with the start block at height 4: three headers are stored without blocks, reorganisations among them go through
+    # the header handler's revert path and append the new branch directly
+    scen4 = []
+    for k, (t1, t2) in enumerate([(3, 7), (3, 6), (1, 7), (4, 7), (3, 4)]):
+        for rk in ('ProcRestart', 'Restart'):
+            scen4.append({'id': 'fam4-%d-%s' % (k, rk[0]), 'ptip': t1, 'steps': [C, {'a': 'PeerAdvance', 't': t2}, C, {'a': rk}, C], 'faults': True, 'stride': 1})
+    if not thorough:
+        scen4 = scen4[chk.seed % 2::2]
+    t4 = cs.TREES['Par7s4']
+    clines4, _ = pipeline.replay_parallel(chk, 'spynode', 'TestVerifCrashChainSync', {'par': t4['par'], 'start': t4['start'], 'batch': t4['batch']}, scen4, nproc=14, timeout=2400)
+    res4 = pipeline.tlc_lines_parallel(chk, 'Props_ChainSync', 'Props_ChainSync.cfg', clines4, 'props_result.json', 8, 2400, cs.tree_subst('Par7s4'))
+    scen += scen4
     trs = {}
-    for i, l in enumerate(clines):
+    for i, l in enumerate(clines + clines4):
         trs.setdefault(l['tr'], []).append(i)
     ncrash = sum(1 for k in trs if '#crash' in k)
     nfault = sum(1 for k in trs if k.endswith('r') and '#fault' in k)
@@ -89,6 +101,12 @@ def main(argv):
         for f, j in rs['bad']:
             l = sel[j - 1] - 1
             bad.setdefault(clines[l]['tr'], []).append((f, l))
+    off = len(clines)
+    for sel, rs, r in res4:
+        for f, j in rs['bad']:
+            l = off + sel[j - 1] - 1
+            bad.setdefault(clines4[l - off]['tr'], []).append((f, l))
+    clines = clines + clines4
     scen_ids = {s['id']: s for s in scen}
     for tr, fl in sorted(bad.items()):
         base = tr.split('#')[0]
